@@ -56,6 +56,8 @@ def case(part, cfg):
 def configs(thorough, seed):
     out = []
     models = ['lin1', 'sq', 'mlp3', 'conv', 'convsq', 'seq3d', 'nbfirst']
+    if thorough:
+        models += ['nested', 'mixed', 'wide', 'mlp2']
     methods = [('eigen', True), ('eigen', False), ('inverse', False)]
     dampings = [1e-2, 1e-1, 1.0, 10.0]
     decays = [0.5, 0.95, 1.0]
@@ -63,15 +65,16 @@ def configs(thorough, seed):
     if thorough:
         dts += [('f32', 'f64', 'f64'), ('bf16', None, 'f32'),
                 ('f64', 'f32', 'f32')]
-    steps = 5 if thorough else 3
-    for model, (m, pre), lam, dec, (dt, fdt, idt), kl in itertools.product(
-            models, methods, dampings, decays, dts, (1e-3, 1e30)):
+    steps = 6 if thorough else 3
+    batches = (1, 2, 3) if thorough else (2,)
+    for model, (m, pre), lam, dec, (dt, fdt, idt), kl, b in itertools.product(
+            models, methods, dampings, decays, dts, (1e-3, 1e30), batches):
         k = dict(damping=lam, factor_decay=dec, kl_clip=kl, lr=0.1,
                  compute_method=m, compute_eigenvalue_outer_product=pre,
                  inv_dtype=idt)
         if fdt:
             k['factor_dtype'] = fdt
-        out.append({'model': model, 'dtype': dt, 'batch': 2, 'world': 1,
+        out.append({'model': model, 'dtype': dt, 'batch': b, 'world': 1,
                     'seed': seed, 'kfac': k, 'history': [['train']] * steps})
     # rank-deficient batches, low-precision factors, long decay: factors
     # with zero / slightly negative eigenvalues (PSD projection matters)
